@@ -719,7 +719,9 @@ def c20_jobs(tier):
             j("ramp66-4096", 1 if tier == "quick" else 2, objsz=4096, objnum=1, mode="ramp", target=66),
             j("ramp66-2048", 1, objsz=2048, objnum=2, mode="ramp", target=132),
             j("ramp-8x512", 0, objsz=8, objnum=512, mode="ramp", target=33300, nochoice=1),
-            j("static-tls", 0, mode="static", target=400)]
+            j("static-tls", 0, mode="static", target=400),
+            # live objects of a static pool on the thread that runs an experiment of 1..8 trials
+            j("static-across-experiment", 0, mode="experiment", target=150)]
     if tier != "quick":
         jobs += [j("ramp130-4096", 2, 1500, objsz=4096, objnum=1, mode="ramp", target=130),
                  j("ramp66-4104", 2, 1500, objsz=4104, objnum=1, mode="ramp", target=66),
